@@ -5,7 +5,7 @@ CONSTANTS
   NCtx = 1
   NDest = 2
   MaxActs = 0
-  MaxMsgs = 4
+  MaxMsgs = 3
   MaxFaults = 0
   MaxDepth = 2
   MaxBlocks = 2
